@@ -856,7 +856,7 @@ var c20Classes = []string{"route-comment", "empty-body-comment", "inner-comment"
 
 func c20Gen(r *verifh.Rng) []verifh.Section {
 	if os.Getenv("C20_PROBE") != "" {
-		return c20ProbeSections(r)
+		return c20SweepSections(r, 40, "probe")
 	}
 	var secs []verifh.Section
 	nprog := verifh.Scale(300, 6000)
@@ -908,6 +908,8 @@ func c20Gen(r *verifh.Rng) []verifh.Section {
 			secs = append(secs, sectionOf("valid", i, g, g.program()))
 		}
 	}
+	// every position x every comment form, in isolation
+	secs = append(secs, c20SweepSections(r.Fork(), verifh.Scale(2, 8), "sweep")...)
 	// the empty source
 	secs = append(secs, verifh.Section{Cfg: "kind=valid id=0 cm=0 class=empty-source sure=0 slots=-", Ops: []string{"fmt"}})
 	return secs
